@@ -36,6 +36,11 @@ def build_fd(name, impl, tmp):
     off += n
   if impl == 'mem':
     return fedjax.InMemoryFederatedData(table), table
+  if impl == 'sub_dup':
+    # the population given as a subset whose id list names some clients twice (two overlapping groups concatenated)
+    from fedjax.core import federated_data as fdm
+    extra = {b'zz%d' % k: {'x': np.arange(1, dtype=np.int32)} for k in range(2)}
+    return fdm.SubsetFederatedData(fedjax.InMemoryFederatedData({**table, **extra}), list(ids) + list(ids[:2]) + [ids[-1]]), table
   path = os.path.join(tmp, name + '.sqlite')
   if not os.path.exists(path):
     with sq.SQLiteFederatedDataBuilder(path) as b:
@@ -274,13 +279,13 @@ def plan(ctx):
                       'history-dependent answer, which is why whole histories (not merged states) are executed']
   hc = []
   for name, ids in DATASETS.items():
-    for impl in ('mem', 'sql'):
+    for impl in ('mem', 'sql', 'sub_dup'):
       for seed in (0, 1, 7):
         for k in range(1, len(ids) + 1):
           d = depth
           if th and not (seed == 0 or k in (1, len(ids))):
             d = 4
-          if not th and impl == 'sql' and seed == 1:
+          if not th and impl in ('sql', 'sub_dup') and seed == 1:
             continue
           hc.append({'dataset': name, 'impl': impl, 'seed': seed + ctx.seed, 'k': k, 'depth': d})
   ctx.pmap('histories', hc, chunk=1)
